@@ -441,8 +441,8 @@ Proof.
   - intros E; inversion E; subst; split; assumption.
 Qed.
 
-Lemma ph_check_prev ih ivs s p status proposer prev_hash prev_vs :
-  cinv ih ivs s -> ph_check s p = PHC status proposer prev_hash prev_vs ->
+Lemma ph_check_prev ih ivs s p status proposer prev_hash prev_vs view_vs :
+  cinv ih ivs s -> ph_check s p = PHC status proposer prev_hash prev_vs view_vs ->
   status = PHCheckAcceptable ->
   hd_height (ph_hdr p) = v_h (k_vot s) -> hd_height (ph_hdr p) <> k_init_h s ->
   exists ch, k_chdr s = Some ch /\ prev_hash = hd_hash ch.
@@ -456,7 +456,7 @@ Proof.
   destruct (N.eqb_spec (v_h (k_vot s)) (v_h (k_com s))); [lia|].
   rewrite N.eqb_refl in Hc.
   assert (G : forall v vid, (vid = ViewIDVoting \/ vid = ViewIDNextRound) ->
-              set_ph_check_status s p v vid = PHC status proposer prev_hash prev_vs ->
+              set_ph_check_status s p v vid = PHC status proposer prev_hash prev_vs view_vs ->
               exists ch, k_chdr s = Some ch /\ prev_hash = hd_hash ch).
   { intros v vid Hvid. unfold set_ph_check_status.
     destruct (existsb _ _); [intros E; inversion E; subst; discriminate|].
@@ -478,12 +478,13 @@ Lemma cinv_handle_ph_loop ih ivs fuel : forall backfilled s p s' res,
   cinv ih ivs s -> ph_bounded p -> handle_ph_loop fuel backfilled s p = Ok (s', res) ->
   cinv ih ivs s' /\ adv s s'.
 Proof.
-  assert (Hbody : forall s p status proposer prev_hash prev_vs s' res,
+  assert (Hbody : forall s p status proposer prev_hash prev_vs view_vs s' res,
     cinv ih ivs s -> ph_bounded p ->
-    ph_check s p = PHC status proposer prev_hash prev_vs -> status = PHCheckAcceptable ->
+    ph_check s p = PHC status proposer prev_hash prev_vs view_vs -> status = PHCheckAcceptable ->
     (let hd := ph_hdr p in
       if negb (hd_ok hd) then Ok (s, HandleProposedHeaderBadBlockHash)
       else if negb (vs_ok (hd_vals hd) && vs_ok (hd_next hd)) then Ok (s, HandleProposedHeaderBadBlockHash)
+      else if negb (valset_equal (hd_vals hd) view_vs) then Ok (s, HandleProposedHeaderBadBlockHash)
       else
         match proposer with
         | None => Ok (s, HandleProposedHeaderBadSignature)
@@ -514,19 +515,20 @@ Proof.
             else accept
         end) = Ok (s', res) ->
     cinv ih ivs s' /\ adv s s').
-  { intros s p status proposer prev_hash prev_vs s' res H Hb Hc Hs. cbv zeta.
+  { intros s p status proposer prev_hash prev_vs view_vs s' res H Hb Hc Hs. cbv zeta.
     assert (Hsame : forall r0, Ok (s, r0) = Ok (s', res) -> cinv ih ivs s' /\ adv s s').
     { intros r0 E; inversion E; subst. split; [exact H|apply adv_refl]. }
     destruct (hd_ok (ph_hdr p)) eqn:Hok; cbn [negb]; [|apply Hsame].
     destruct (vs_ok (hd_vals (ph_hdr p)) && vs_ok (hd_next (ph_hdr p))) eqn:Hvs; cbn [negb]; [|apply Hsame].
     apply andb_true_iff in Hvs as [_ Hnext].
+    destruct (valset_equal (hd_vals (ph_hdr p)) view_vs) eqn:Hveq; cbn [negb]; [|apply Hsame].
     destruct proposer as [key|]; [|apply Hsame].
     destruct (negb (verify_prop _ _ _ _)); [apply Hsame|].
     destruct (negb (hd_height (ph_hdr p) =? k_init_h s) && negb (bytes_eqb (hd_prev (ph_hdr p)) prev_hash)) eqn:Hprev; [apply Hsame|].
     destruct (negb (bytes_eqb (vs_pkh prev_vs) _)); [apply Hsame|].
     assert (Hfacts : accept_facts s p).
     { unfold accept_facts. repeat split; try assumption.
-      intros Hh Hne. destruct (ph_check_prev _ _ _ _ _ _ _ _ H Hc Hs Hh Hne) as (ch&Hch&Hph).
+      intros Hh Hne. destruct (ph_check_prev _ _ _ _ _ _ _ _ _ H Hc Hs Hh Hne) as (ch&Hch&Hph).
       exists ch. split; [exact Hch|].
       apply andb_false_iff in Hprev as [Hp|Hp].
       - apply negb_false_iff in Hp. apply N.eqb_eq in Hp. contradiction.
@@ -541,7 +543,7 @@ Proof.
     unfold bind at 1. destruct (byz_majority _); [|discriminate].
     destruct (_ <? _); [apply Hsame|exact Hacc]. }
   induction fuel as [|f IH]; intros backfilled s p s' res H Hb; cbn [handle_ph_loop];
-    destruct (ph_check s p) as [status proposer prev_hash prev_vs] eqn:Hc.
+    destruct (ph_check s p) as [status proposer prev_hash prev_vs view_vs] eqn:Hc.
   all: assert (Hsame : forall r0, Ok (s, r0) = Ok (s', res) -> cinv ih ivs s' /\ adv s s')
          by (intros r0 E; inversion E; subst; split; [exact H|apply adv_refl]).
   all: destruct (status =? PHCheckAlreadyHaveSignature) eqn:S1; [apply Hsame|].
@@ -612,13 +614,18 @@ Lemma cinv_replay_insert ih ivs s hd r s1 :
 Proof.
   intros H Hgood. unfold replay_insert.
   destruct (existsb _ (v_phs _)); [intros E; inversion E; subst; split; [exact H|apply fbp_refl]|].
-  destruct (existsb _ (st_rounds s)); [discriminate|].
-  intros E; inversion E; subst. split; [|unfold frame_eq_but_phs; cbn; repeat split].
   destruct H as (Hi1&Hi2&Hi3&Hnh&Hnr&Hnhr&Hvv&Hvn&Hokv&Hphs&Hch).
-  unfold cinv. cbn. splits; try assumption.
-  unfold phs_good in *. cbn. intros q [Hq|Hq].
-  - apply in_app_or in Hq as [Hq|[Hq|[]]]; [exact (Hphs q (or_introl Hq))|subst q; exact Hgood].
-  - exact (Hphs q (or_intror Hq)).
+  destruct (existsb _ (st_rounds s)); intros E; inversion E; subst.
+  - split; [|unfold frame_eq_but_phs; cbn; repeat split].
+    unfold cinv. cbn. splits; try assumption; try reflexivity.
+    unfold phs_good in *. cbn. intros q [Hq|Hq].
+    + apply in_app_or in Hq as [Hq|[Hq|[]]]; [exact (Hphs q (or_introl Hq))|subst q; exact Hgood].
+    + exact (Hphs q (or_intror Hq)).
+  - split; [|unfold frame_eq_but_phs; cbn; repeat split].
+    unfold cinv. cbn. splits; try assumption; try reflexivity.
+    unfold phs_good in *. cbn. intros q [Hq|Hq].
+    + apply in_app_or in Hq as [Hq|[Hq|[]]]; [exact (Hphs q (or_introl Hq))|subst q; exact Hgood].
+    + exact (Hphs q (or_intror Hq)).
 Qed.
 
 Lemma cinv_handle_replay ih ivs s0 hd cp s' res :
